@@ -138,6 +138,83 @@ fn interp(req: &Value) -> R {
             Err(p) => json!({ "panic": p }),
         };
         o["run"] = json!({"end": end, "detail": detail, "post": post, "script_index": b.script_index()});
+        // a finished interpreter asked to continue: run() again and next() again must change nothing
+        if end == "ok" && bo(req, "after_finish") {
+            let again = match guarded(|| b.run()) {
+                Ok(Ok(())) => json!("ok"),
+                Ok(Err(e)) => json!({ "err": e.to_string() }),
+                Err(p) => json!({ "panic": p }),
+            };
+            let nxt = match guarded(|| b.next()) {
+                Ok(None) => json!("none"),
+                Ok(Some(Ok(_))) => json!("state"),
+                Ok(Some(Err(e))) => json!({ "err": e.to_string() }),
+                Err(p) => json!({ "panic": p }),
+            };
+            let post2 = match guarded(|| b.state()) {
+                Ok(s) => state_json(&s),
+                Err(p) => json!({ "panic": p }),
+            };
+            o["after_finish"] = json!({"run_again": again, "next_again": nxt, "post": post2, "script_index": b.script_index()});
+        }
+    }
+
+    // mixed: k single steps, then the interpreter object goes through a serde JSON round trip or a clone, then run() to completion
+    if let Some(mx) = req.get("mixed") {
+        let k = un(mx, "k")? as usize;
+        let mut c = match guarded(|| make(req)) {
+            Ok(r) => r?,
+            Err(p) => return Ok(json!({ "make_panic": p })),
+        };
+        let mut stopped = Value::Null;
+        let mut done = 0usize;
+        for _ in 0..k {
+            match guarded(|| c.next()) {
+                Ok(None) => {
+                    stopped = json!("none");
+                    break;
+                }
+                Ok(Some(Ok(_))) => done += 1,
+                Ok(Some(Err(e))) => {
+                    stopped = json!({ "err": e.to_string() });
+                    break;
+                }
+                Err(p) => {
+                    stopped = json!({ "panic": p });
+                    break;
+                }
+            }
+        }
+        let mut via_err = Value::Null;
+        let mut bits_preserved = true;
+        if stopped.is_null() {
+            match st_opt(mx, "via").unwrap_or("json") {
+                "json" => match guarded(|| serde_json::to_string(&c).map_err(|e| e.to_string()).and_then(|t| serde_json::from_str::<Interpreter>(&t).map_err(|e| e.to_string()))) {
+                    Ok(Ok(n)) => {
+                        bits_preserved = n.script_bits() == c.script_bits();
+                        c = n
+                    }
+                    Ok(Err(e)) => via_err = json!({ "err": e }),
+                    Err(p) => via_err = json!({ "panic": p }),
+                },
+                "clone" => c = c.clone(),
+                _ => {}
+            }
+        }
+        let (end, detail) = if !stopped.is_null() || !via_err.is_null() {
+            (json!("not_run"), Value::Null)
+        } else {
+            match guarded(|| c.run()) {
+                Ok(Ok(())) => (json!("ok"), Value::Null),
+                Ok(Err(e)) => (json!("err"), json!(e.to_string())),
+                Err(p) => (json!("panic"), p),
+            }
+        };
+        let post = match guarded(|| c.state()) {
+            Ok(s) => state_json(&s),
+            Err(p) => json!({ "panic": p }),
+        };
+        o["mixed"] = json!({"bits_preserved": bits_preserved, "stepped": done, "stopped": stopped, "via_err": via_err, "end": end, "detail": detail, "post": post, "script_index": c.script_index()});
     }
     Ok(o)
 }
